@@ -30,6 +30,7 @@ RULE = (
 ASSUMPTIONS = [
     "lattice + boundary points, not the continuum; no probe point lies closer than 0.1*tolerance to a decision boundary (guard band)",
     "agreement claimed when the same tolerance arguments are passed to all three checkers; linear mode compared on non-negative schedules",
+    "buffer block: one ndarray owned by the caller, overwritten in place between consecutive network-side queries (phase-aware and linear)",
     "history block: the constraint set is edited (update same name / update first / remove / add) under a live Interface; after every edit the lattice + boundary points of the edited set are re-checked",
 ]
 CHUNK = 4
@@ -50,6 +51,9 @@ TEMPLATES = {
     # two constraints on the SAME aggregate current with different limits, the looser one registered first
     "duprows": {"angles": [30, -90, 150], "cons": [("loose", {"PS-A": 1, "PS-B": 1}, 60.0), ("x", {"PS-C": 1, "PS-A": -1}, 30.3), ("tight", {"PS-A": 1, "PS-B": 1}, 40.5)]},
     "none": {"angles": [30, -90, 150], "cons": []},
+    # EVSEs with a real maximum (32 A) under generously rated constraints: no schedule within the EVSE limits can load
+    # them fully - feasibility is still decided by the currents asked about, whatever the EVSEs could deliver
+    "rated": {"angles": [30, -90, 150], "max_rate": 32, "cons": [("gen", {"PS-A": 1, "PS-B": 1, "PS-C": 1}, 100.0), ("d", {"PS-A": 1, "PS-C": -1}, 70.0)]},
 }
 # quick uses the first two registration orders, thorough all six
 ORDERS = [["PS-A", "PS-B", "PS-C"], ["PS-C", "PS-A", "PS-B"], ["PS-B", "PS-C", "PS-A"], ["PS-A", "PS-C", "PS-B"], ["PS-B", "PS-A", "PS-C"], ["PS-C", "PS-B", "PS-A"]]
@@ -75,7 +79,7 @@ def build(tname, order, tol):
     t = TEMPLATES[tname]
     net = ChargingNetwork(violation_tolerance=tol[0], relative_tolerance=tol[1])
     for st in order:
-        net.register_evse(EVSE(st, max_rate=1e6), 208, t["angles"][ST.index(st)])
+        net.register_evse(EVSE(st, max_rate=t.get("max_rate", 1e6)), 208, t["angles"][ST.index(st)])
     with warnings.catch_warnings():
         warnings.simplefilter("ignore")
         for name, coefs, lim in t["cons"]:
@@ -155,6 +159,10 @@ def space(tier, seed):
                         it["nettol"] = 3
                     items.append(it)
     items.append({"tpl": "none", "order": 0, "tol": 0, "T": 0, "algos": True})
+    # one caller-owned schedule buffer, overwritten in place between consecutive network-side queries
+    for tname in ("deltawye", "single", "rated"):
+        for T in (1, 2):
+            items.append({"tpl": tname, "order": 1, "tol": 0, "T": T, "buf": True, "tier": tier})
     for tname in ("deltawye", "single", "fractional"):
         for oi in range(len(ORDERS) if thorough else 2):
             for ti in (0, 3):
@@ -320,10 +328,48 @@ def run_history(item, acc=None):
     return viol
 
 
+def run_buffer(item, acc=None):
+    """the caller keeps ONE ndarray and overwrites it in place between queries; nothing else is asked in between"""
+    viol = []
+    tname, order, tol, T = item["tpl"], ORDERS[item["order"]], TOLS[item["tol"]], item["T"]
+    net, iface = build(tname, order, tol)
+    buf = np.zeros((3, T))
+    zero = {st: 0.0 for st in ST}
+    for linear in (False, True):
+        for tag, col in points(tname, tol, item.get("tier", "quick")):
+            cols = embed(col, T, T - 1, zero)
+            exp, near = oracle(tname, cols, tol)
+            if linear:
+                if _lin_margin(tname, cols, tol) < 0.1:
+                    continue
+                exp = lin_oracle(tname, cols, tol)
+            elif near < 0.1:
+                continue
+            buf[:, :] = [[c[st] for c in cols] for st in order]
+            try:
+                got = bool(net.is_feasible(buf, linear=linear))
+            except Exception as exc:
+                guard(exc)
+                viol.append(("buffer:exception:%s" % type(exc).__name__, "is_feasible on a re-used buffer raised %r" % exc, {"cols": cols}, repr(exc), None))
+                return viol
+            if acc is not None:
+                acc.evals += 1
+                acc.outcome(("buf", tname, exp, linear))
+                if near <= 10:
+                    acc.nt(("buf", tname, T, linear, tag, tuple(round(v, 9) for v in col.values())))
+            if got != exp:
+                viol.append(("buffer:network-vs-definition:%s" % ("linear" if linear else "phase-aware"), "%s: network.is_feasible on a caller-owned buffer overwritten in place = %s, definition %s" % (tag, got, exp), {"cols": cols}, got, exp))
+                if len(viol) > 5:
+                    return viol
+    return viol
+
+
 def execute(item, acc=None, only=None):
     viol = []
     if item.get("hist"):
         return run_history(item, acc)
+    if item.get("buf"):
+        return run_buffer(item, acc)
     if item.get("algos"):
         a = acc or Acc()
         run_algos(a)
@@ -388,6 +434,8 @@ def replay(scn):
         return [{"signature": s, "what": w, "observed": o, "expected": e} for s, w, _, o, e in execute(scn)]
     if scn.get("hist"):
         return [{"signature": s, "what": w, "observed": o, "expected": e} for s, w, _, o, e in execute({k: scn[k] for k in ("tpl", "order", "tol", "T", "hist")})]
+    if scn.get("buf"):
+        return [{"signature": s, "what": w, "observed": o, "expected": e} for s, w, _, o, e in execute({k: scn[k] for k in ("tpl", "order", "tol", "T", "buf", "tier") if k in scn})]
     only = scn.get("point", {}).get("cols")
     item = {k: scn[k] for k in ("tpl", "order", "tol", "T", "nettol", "tier") if k in scn}
     viol = execute(item, None, only=only)
